@@ -345,7 +345,7 @@ func (r *Run) sub() *Run {
 func runC17(r *Run) {
 	installHooks()
 	hub.reset()
-	r.st.Rule = "binary built with -race: (1) mixed scenario on TCP and WebSocket - 8 callers of Do, 2 of AuthInfo, incoming responses, pushes and server heartbeats, keepalive ticks every 30 ms, connection loss + recovery (RECONNECT), server close packet, Close while callers are calling; (2) frames split across socket reads on one connection while 8 callers pack requests on another (shared codec pools); (3) bursts of 64 callers overflowing the WebSocket write queue; (4) the scenario suites of the other client properties run once more under the detector (quick: C05, C14, C15; thorough: all). A report counts when both access stacks are inside the library."
+	r.st.Rule = "binary built with -race: (1) mixed scenario on TCP and WebSocket - 8 callers of Do, 2 of AuthInfo, incoming responses, pushes and server heartbeats, keepalive ticks every 30 ms, connection loss + recovery (RECONNECT), server close packet, Close while callers are calling; (2) frames split across socket reads on one connection while 8 callers pack requests on another (shared codec pools); (3) bursts of 64 callers overflowing the WebSocket write queue; 8 callers with 2.5-3 KB bodies (gzip path, pooled compressors); (4) the scenario suites of the other client properties run once more under the detector (quick: C05, C14, C15; thorough: all). A report counts when both access stacks are inside the library."
 	for _, trans := range []string{"tcp", "ws"} {
 		r.c17Mix(trans)
 	}
